@@ -2,6 +2,7 @@ package main
 
 import (
 	"fmt"
+	"strings"
 	"sync/atomic"
 	"time"
 
@@ -73,6 +74,8 @@ var rpcCalls = []rpcCall{
 	echoCall("echo/throw-oops", "throw-oops"),
 	echoCall("echo/throw-api", "throw-api"),
 	echoCall("echo/throw-plain", "throw-plain"),
+	echoCall("echo/throw-plain-257", "throw-plain-"+strings.Repeat("y", 257-len("Internal error processing echo: h:throw-plain-"))),
+	echoCall("echo/throw-plain-2000", "throw-plain-"+strings.Repeat("z", 2000)),
 	{"getBig", "getBig", "own", "",
 		func() []interface{} { return []interface{}{int32(3), "shape"} },
 		func(c *mainsvc.FFooClient, ctx frugal.FContext, a []interface{}) []interface{} {
